@@ -231,7 +231,9 @@ fn kernel_method(r: &mut Runner) {
 
 /// Compile-time probe (autoref specialisation): is `T: Serialize + DeserializeOwned`? When it is,
 /// the value goes through the full round-trip oracle; when it is not, `try_round_trip` says so.
+#[allow(dead_code)]
 pub struct Probe<'a, T>(pub &'a T);
+#[allow(dead_code)]
 pub trait ViaSerde<T> {
     fn try_round_trip(&self, o: &mut Out, spec: &Spec<T>) -> bool;
 }
